@@ -1796,6 +1796,222 @@ example : (match (runHandler 200 .parseDeleteStatement).run (PState.init exDelet
     | .ok _ => true
     | .error _ => false) = true := by decide +kernel
 
+/-! ### SHOW SERIES, SHOW TAG KEYS, SHOW FIELD KEYS, SHOW MEASUREMENTS -/
+
+/-- `[ON db] [FROM names] [WHERE cond] [LIMIT l] [OFFSET o]`. -/
+def showText (db : Str) (names : List Str) (c : Option Expr) (l o : Int) : Str :=
+  onDbText db ++ (fromText names ++ (whereText c ++ (posText .LIMIT l ++ posText .OFFSET o)))
+
+theorem showSeries_print_partial (db : Str) (names : List Str) (c : Option Expr) (l o : Int) (h : ∀ m ∈ names, m ≠ []) :
+    (Statement.showSeries db (names.map nameSrc) c [] l o).print = tx "SHOW SERIES" ++ showText db names c l o ∧
+    (Statement.showFieldKeys db (names.map nameSrc) [] l o).print = tx "SHOW FIELD KEYS" ++ showText db names none l o ∧
+    (Statement.showTagKeys db (names.map nameSrc) .ILLEGAL none c [] l o 0 0).print =
+      tx "SHOW TAG KEYS" ++ showText db names c l o ∧
+    (Statement.showMeasurements [] [] false false none c [] l o).print = tx "SHOW MEASUREMENTS" ++ showText [] [] c l o := by
+  have p1 : (Statement.showSeries db (names.map nameSrc) c [] l o).print =
+      tx "SHOW SERIES" ++ clauseOn db ++ clauseFrom (names.map nameSrc) ++ clauseWhere c ++ clauseOrderBy [] ++
+        clausePos "LIMIT" l ++ clausePos "OFFSET" o := rfl
+  have p2 : (Statement.showFieldKeys db (names.map nameSrc) [] l o).print =
+      tx "SHOW FIELD KEYS" ++ clauseOn db ++ clauseFrom (names.map nameSrc) ++ clauseOrderBy [] ++
+        clausePos "LIMIT" l ++ clausePos "OFFSET" o := rfl
+  have p3 : (Statement.showTagKeys db (names.map nameSrc) .ILLEGAL none c [] l o 0 0).print =
+      tx "SHOW TAG KEYS" ++ clauseOn db ++ clauseFrom (names.map nameSrc) ++ [] ++ clauseWhere c ++ clauseOrderBy [] ++
+        clausePos "LIMIT" l ++ clausePos "OFFSET" o ++ clausePos "SLIMIT" 0 ++ clausePos "SOFFSET" 0 := rfl
+  have p4 : (Statement.showMeasurements [] [] false false none c [] l o).print =
+      tx "SHOW MEASUREMENTS" ++ [] ++ [] ++ clauseWhere c ++ clauseOrderBy [] ++
+        clausePos "LIMIT" l ++ clausePos "OFFSET" o := rfl
+  have e0 : clauseOrderBy [] = [] := rfl
+  have e1 : clausePos "SLIMIT" 0 = [] := rfl
+  have e2 : clausePos "SOFFSET" 0 = [] := rfl
+  have e3 : onDbText [] = [] := rfl
+  rw [p1, p2, p3, p4, clauseFrom_names names h, clauseWhere_eq, clauseOn_onDbText, (clausePos_eq l).1,
+    (clausePos_eq o).2.1, e0, e1, e2]
+  simp only [showText, fromText, whereText, e3, List.append_assoc, List.append_nil, List.nil_append, and_self]
+
+/-- The tokens that continue one of these statements. -/
+def showStop : List Token := [.EXACT, .CARDINALITY, .ON, .FROM, .COMMA, .WITH, .WHERE, .ORDER, .LIMIT, .OFFSET, .SLIMIT, .SOFFSET]
+
+section
+variable (db : Str) (names : List Str) (c : Option Expr) (l o : Int) (k : Str)
+
+theorem show_follow (hk : Follow k showStop) :
+    Follow (posText .OFFSET o ++ k) [.EXACT, .CARDINALITY, .ON, .FROM, .COMMA, .WITH, .WHERE, .ORDER, .LIMIT, .SLIMIT, .SOFFSET] ∧
+    Follow (posText .LIMIT l ++ (posText .OFFSET o ++ k)) [.EXACT, .CARDINALITY, .ON, .FROM, .COMMA, .WITH, .WHERE, .ORDER] ∧
+    Follow (whereText c ++ (posText .LIMIT l ++ (posText .OFFSET o ++ k))) [.EXACT, .CARDINALITY, .ON, .FROM, .COMMA, .WITH] ∧
+    Follow (fromText names ++ (whereText c ++ (posText .LIMIT l ++ (posText .OFFSET o ++ k)))) [.EXACT, .CARDINALITY, .ON] := by
+  have g4 : Follow (posText .OFFSET o ++ k) [.EXACT, .CARDINALITY, .ON, .FROM, .COMMA, .WITH, .WHERE, .ORDER, .LIMIT, .SLIMIT, .SOFFSET] :=
+    Follow.opt (kwText_pos _ _) (by decide +kernel) rfl (by decide) (hk.mono (by decide))
+  have g3 : Follow (posText .LIMIT l ++ (posText .OFFSET o ++ k)) [.EXACT, .CARDINALITY, .ON, .FROM, .COMMA, .WITH, .WHERE, .ORDER] :=
+    Follow.opt (kwText_pos _ _) (by decide +kernel) rfl (by decide) (g4.mono (by decide))
+  have g2 : Follow (whereText c ++ (posText .LIMIT l ++ (posText .OFFSET o ++ k))) [.EXACT, .CARDINALITY, .ON, .FROM, .COMMA, .WITH] :=
+    Follow.opt (kwText_where _) (by decide +kernel) rfl (by decide) (g3.mono (by decide))
+  have g1 : Follow (fromText names ++ (whereText c ++ (posText .LIMIT l ++ (posText .OFFSET o ++ k)))) [.EXACT, .CARDINALITY, .ON] :=
+    Follow.opt (kwText_from _) (by decide +kernel) rfl (by decide) (g2.mono (by decide))
+  exact ⟨g4, g3, g2, g1⟩
+
+/-- **Print → parse, SHOW SERIES** `[ON db] [FROM m1, …] [WHERE cond] [LIMIT l] [OFFSET o]`.
+Partial: sources are plain measurement names, the condition is `Printable` (see
+`deleteLike_print_parse_partial`), and there is no `ORDER BY` clause (the parser accepts
+`ORDER BY [time] ASC|DESC`); limit and offset in the parser's range. -/
+theorem showSeries_print_parse_partial (fuel : Nat) (s : PState)
+    (hexdb : Expressible db) (hex : ∀ m ∈ names, Expressible m) (hc : CondOK c)
+    (hl : 0 ≤ l ∧ l ≤ maxInt64) (ho : 0 ≤ o ∧ o ≤ maxInt64) (hk : Follow k showStop)
+    (hs : s.Before (showText db names c l o ++ k)) :
+    wp (runHandler fuel .parseShowSeriesStatement) s
+      (fun st s' => st = .showSeries db (names.map nameSrc) c [] l o ∧ RT.Stand s' k) (· = .fuel) := by
+  obtain ⟨g4, g3, g2, g1⟩ := show_follow names c l o k hk
+  have g0 : Follow (onDbText db ++ (fromText names ++ (whereText c ++ (posText .LIMIT l ++ (posText .OFFSET o ++ k)))))
+      [.EXACT, .CARDINALITY] := Follow.opt (kwText_onDb _) (by decide +kernel) rfl (by decide) (g1.mono (by decide))
+  have hs0 : RT.Stand s (onDbText db ++ (fromText names ++ (whereText c ++ (posText .LIMIT l ++ (posText .OFFSET o ++ k))))) := by
+    have := hs.stand
+    simpa [showText, List.append_assoc] using this
+  obtain ⟨T1, hT1, hne1⟩ := g0.starts (t := .EXACT) (by simp)
+  obtain ⟨s1, h1, st1⟩ := optTok_absent_stand .EXACT s _ T1 hs0 hT1 hne1
+  obtain ⟨T2, hT2, hne2⟩ := g0.starts (t := .CARDINALITY) (by simp)
+  obtain ⟨s2, h2, st2⟩ := optTok_absent_stand .CARDINALITY s1 _ T2 st1 hT2 hne2
+  obtain ⟨s3, h3, st3⟩ := parseOnDb_stand s2 db _ hexdb (g1.mono (by decide)) st2
+  obtain ⟨s4, h4, st4⟩ := parseOptFrom_names s3 names _ hex (g2.mono (by decide)) st3
+  simp only [runHandler, parseShowSeries]
+  rw [wp_bind, wp_of_run_ok h1, wp_bind, wp_of_run_ok h2]
+  simp only [Bool.false_eq_true, if_false]
+  rw [wp_bind, wp_of_run_ok h3, wp_bind, wp_of_run_ok h4, wp_bind]
+  refine wp_mono (parseCondition_print fuel s4 c _ hc (g3.mono (by decide)) st4) ?_ (fun _ h => h)
+  intro c' s5 ⟨hc', st5⟩
+  subst hc'
+  obtain ⟨s6, h6, st6⟩ := parseOrderBy_absent s5 _ (g3.mono (by decide)) st5
+  obtain ⟨s7, h7, st7⟩ := parseOptTokInt_print .LIMIT (by decide +kernel) s6 l _ hl.1 hl.2 (g4.mono (by decide)) st6
+  obtain ⟨s8, h8, st8⟩ := parseOptTokInt_print .OFFSET (by decide +kernel) s7 o k ho.1 ho.2 (hk.mono (by decide)) st7
+  rw [wp_bind, wp_of_run_ok h6, wp_bind, wp_of_run_ok h7, wp_bind, wp_of_run_ok h8, wp_pure]
+  exact ⟨rfl, st8⟩
+
+/-- **Print → parse, SHOW FIELD KEYS** `[ON db] [FROM m1, …] [LIMIT l] [OFFSET o]` (no expression:
+the handler returns exactly, without a fuel alternative). Partial: plain measurement names, no `ORDER BY`. -/
+theorem showFieldKeys_print_parse_partial (fuel : Nat) (s : PState)
+    (hexdb : Expressible db) (hex : ∀ m ∈ names, Expressible m)
+    (hl : 0 ≤ l ∧ l ≤ maxInt64) (ho : 0 ≤ o ∧ o ≤ maxInt64) (hk : Follow k showStop)
+    (hs : s.Before (showText db names none l o ++ k)) :
+    ∃ s', (runHandler fuel .parseShowFieldKeysStatement).run s =
+      .ok (.showFieldKeys db (names.map nameSrc) [] l o, s') ∧ RT.Stand s' k := by
+  obtain ⟨g4, g3, g2, g1⟩ := show_follow names none l o k hk
+  have hs0 : RT.Stand s (onDbText db ++ (fromText names ++ (posText .LIMIT l ++ (posText .OFFSET o ++ k)))) := by
+    have := hs.stand
+    simpa [showText, whereText, List.append_assoc] using this
+  have g2' : Follow (posText .LIMIT l ++ (posText .OFFSET o ++ k)) [.EXACT, .CARDINALITY, .ON, .FROM, .COMMA, .WITH] := by
+    simpa [whereText] using g2
+  have g1' : Follow (fromText names ++ (posText .LIMIT l ++ (posText .OFFSET o ++ k))) [.EXACT, .CARDINALITY, .ON] := by
+    simpa [whereText] using g1
+  obtain ⟨s3, h3, st3⟩ := parseOnDb_stand s db _ hexdb (g1'.mono (by decide)) hs0
+  obtain ⟨s4, h4, st4⟩ := parseOptFrom_names s3 names _ hex (g2'.mono (by decide)) st3
+  obtain ⟨s6, h6, st6⟩ := parseOrderBy_absent s4 _ (g3.mono (by decide)) st4
+  obtain ⟨s7, h7, st7⟩ := parseOptTokInt_print .LIMIT (by decide +kernel) s6 l _ hl.1 hl.2 (g4.mono (by decide)) st6
+  obtain ⟨s8, h8, st8⟩ := parseOptTokInt_print .OFFSET (by decide +kernel) s7 o k ho.1 ho.2 (hk.mono (by decide)) st7
+  refine ⟨s8, ?_, st8⟩
+  simp only [runHandler, parseShowFieldKeys]
+  rw [P.run_bind _ _ _ _ _ h3, P.run_bind _ _ _ _ _ h4, P.run_bind _ _ _ _ _ h6, P.run_bind _ _ _ _ _ h7,
+    P.run_bind _ _ _ _ _ h8]
+  rfl
+
+/-- **Print → parse, SHOW TAG KEYS** `[ON db] [FROM m1, …] [WHERE cond] [LIMIT l] [OFFSET o]`.
+Partial: as `showSeries_print_parse_partial`; additionally no `WITH KEY` clause and no SLIMIT / SOFFSET. -/
+theorem showTagKeys_print_parse_partial (fuel : Nat) (s : PState)
+    (hexdb : Expressible db) (hex : ∀ m ∈ names, Expressible m) (hc : CondOK c)
+    (hl : 0 ≤ l ∧ l ≤ maxInt64) (ho : 0 ≤ o ∧ o ≤ maxInt64) (hk : Follow k showStop)
+    (hs : s.Before (showText db names c l o ++ k)) :
+    wp (runHandler fuel .parseShowTagKeysStatement) s
+      (fun st s' => st = .showTagKeys db (names.map nameSrc) .ILLEGAL none c [] l o 0 0 ∧ RT.Stand s' k) (· = .fuel) := by
+  obtain ⟨g4, g3, g2, g1⟩ := show_follow names c l o k hk
+  have hs0 : RT.Stand s (onDbText db ++ (fromText names ++ (whereText c ++ (posText .LIMIT l ++ (posText .OFFSET o ++ k))))) := by
+    have := hs.stand
+    simpa [showText, List.append_assoc] using this
+  obtain ⟨s3, h3, st3⟩ := parseOnDb_stand s db _ hexdb (g1.mono (by decide)) hs0
+  obtain ⟨s4, h4, st4⟩ := parseOptFrom_names s3 names _ hex (g2.mono (by decide)) st3
+  obtain ⟨lx, s5, h5, t5, st5⟩ := peek_stand s4 _ _ .WITH g2 (by decide) st4
+  simp only [runHandler, parseShowTagKeys]
+  rw [wp_bind, wp_of_run_ok h3, wp_bind, wp_of_run_ok h4, wp_bind, wp_of_run_ok h5, wp_bind, unscan_wp]
+  simp only [t5, if_false, pure_bind]
+  rw [wp_bind]
+  refine wp_mono (parseCondition_print fuel (unsc s5) c _ hc (g3.mono (by decide)) st5) ?_ (fun _ h => h)
+  intro c' s6 ⟨hc', st6⟩
+  subst hc'
+  obtain ⟨s7, h7, st7⟩ := parseOrderBy_absent s6 _ (g3.mono (by decide)) st6
+  obtain ⟨s8, h8, st8⟩ := parseOptTokInt_print .LIMIT (by decide +kernel) s7 l _ hl.1 hl.2 (g4.mono (by decide)) st7
+  obtain ⟨s9, h9, st9⟩ := parseOptTokInt_print .OFFSET (by decide +kernel) s8 o k ho.1 ho.2 (hk.mono (by decide)) st8
+  obtain ⟨s10, h10, st10⟩ := parseOptTokInt_print .SLIMIT (by decide +kernel) s9 0 k (by decide) (by decide)
+    (hk.mono (by decide)) (by simpa [posText] using st9)
+  obtain ⟨s11, h11, st11⟩ := parseOptTokInt_print .SOFFSET (by decide +kernel) s10 0 k (by decide) (by decide)
+    (hk.mono (by decide)) (by simpa [posText] using st10)
+  rw [wp_bind, wp_of_run_ok h7, wp_bind, wp_of_run_ok h8, wp_bind, wp_of_run_ok h9, wp_bind, wp_of_run_ok h10,
+    wp_bind, wp_of_run_ok h11, wp_pure]
+  exact ⟨rfl, st11⟩
+
+/-- **Print → parse, SHOW MEASUREMENTS** `[WHERE cond] [LIMIT l] [OFFSET o]`.
+Partial: no `ON db[.rp]`, no `WITH MEASUREMENT`, no `ORDER BY`; the condition is `Printable`. -/
+theorem showMeasurements_print_parse_partial (fuel : Nat) (s : PState) (hc : CondOK c)
+    (hl : 0 ≤ l ∧ l ≤ maxInt64) (ho : 0 ≤ o ∧ o ≤ maxInt64) (hk : Follow k showStop)
+    (hs : s.Before (showText [] [] c l o ++ k)) :
+    wp (runHandler fuel .parseShowMeasurementsStatement) s
+      (fun st s' => st = .showMeasurements [] [] false false none c [] l o ∧ RT.Stand s' k) (· = .fuel) := by
+  obtain ⟨g4, g3, g2, g1⟩ := show_follow [] c l o k hk
+  have hs0 : RT.Stand s (whereText c ++ (posText .LIMIT l ++ (posText .OFFSET o ++ k))) := by
+    have := hs.stand
+    simpa [showText, onDbText, fromText, List.append_assoc] using this
+  obtain ⟨T1, hT1, hne1⟩ := g2.starts (t := .ON) (by simp)
+  obtain ⟨s1, h1, st1⟩ := optTok_absent_stand .ON s _ T1 hs0 hT1 hne1
+  obtain ⟨T2, hT2, hne2⟩ := g2.starts (t := .WITH) (by simp)
+  obtain ⟨s2, h2, st2⟩ := optTok_absent_stand .WITH s1 _ T2 st1 hT2 hne2
+  simp only [runHandler, parseShowMeasurements]
+  rw [wp_bind, wp_bind, wp_of_run_ok h1]
+  simp only [Bool.false_eq_true, if_false]
+  rw [wp_pure, wp_bind, wp_bind, wp_of_run_ok h2]
+  simp only [Bool.false_eq_true, if_false]
+  rw [wp_pure, wp_bind]
+  refine wp_mono (parseCondition_print fuel s2 c _ hc (g3.mono (by decide)) st2) ?_ (fun _ h => h)
+  intro c' s5 ⟨hc', st5⟩
+  subst hc'
+  obtain ⟨s6, h6, st6⟩ := parseOrderBy_absent s5 _ (g3.mono (by decide)) st5
+  obtain ⟨s7, h7, st7⟩ := parseOptTokInt_print .LIMIT (by decide +kernel) s6 l _ hl.1 hl.2 (g4.mono (by decide)) st6
+  obtain ⟨s8, h8, st8⟩ := parseOptTokInt_print .OFFSET (by decide +kernel) s7 o k ho.1 ho.2 (hk.mono (by decide)) st7
+  rw [wp_bind, wp_of_run_ok h6, wp_bind, wp_of_run_ok h7, wp_bind, wp_of_run_ok h8, wp_pure]
+  exact ⟨rfl, st8⟩
+
+end
+
+/-- Non-vacuity: `SHOW SERIES ON "my db" FROM cpu, "my m" WHERE … LIMIT 10 OFFSET 3`, `SHOW FIELD KEYS FROM cpu, "my m" LIMIT 5`. -/
+def exShowText : Str := showText "my db".toList exNames exCond 10 3
+def exFieldKeysText : Str := showText [] exNames none 5 0
+
+example : exShowText =
+    " ON \"my db\" FROM cpu, \"my m\" WHERE host = 'a' AND (x > -1 OR y =~ /^b/) LIMIT 10 OFFSET 3".toList ∧
+    exFieldKeysText = " FROM cpu, \"my m\" LIMIT 5".toList := by decide +kernel
+
+section
+attribute [local irreducible] wp
+example : wp (runHandler 200 .parseShowSeriesStatement) (PState.init exShowText [] [])
+    (fun st s' => st = .showSeries "my db".toList (exNames.map nameSrc) exCond [] 10 3 ∧ RT.Stand s' [eofRune])
+    (· = .fuel) :=
+  showSeries_print_parse_partial "my db".toList exNames exCond 10 3 [eofRune] 200 (PState.init exShowText [] [])
+    (by decide +kernel) (by decide +kernel) (by decide +kernel) (by decide) (by decide) (Follow.eof _ (by decide))
+    (init_before exShowText (by decide +kernel))
+
+example : wp (runHandler 200 .parseShowTagKeysStatement) (PState.init exShowText [] [])
+    (fun st s' => st = .showTagKeys "my db".toList (exNames.map nameSrc) .ILLEGAL none exCond [] 10 3 0 0 ∧
+      RT.Stand s' [eofRune]) (· = .fuel) :=
+  showTagKeys_print_parse_partial "my db".toList exNames exCond 10 3 [eofRune] 200 (PState.init exShowText [] [])
+    (by decide +kernel) (by decide +kernel) (by decide +kernel) (by decide) (by decide) (Follow.eof _ (by decide))
+    (init_before exShowText (by decide +kernel))
+end
+
+example : ∃ s', (runHandler 10 .parseShowFieldKeysStatement).run (PState.init exFieldKeysText [] []) =
+    .ok (.showFieldKeys [] (exNames.map nameSrc) [] 5 0, s') := by
+  obtain ⟨s', h, _⟩ := showFieldKeys_print_parse_partial [] exNames 5 0 [eofRune] 10 (PState.init exFieldKeysText [] [])
+    (by decide +kernel) (by decide +kernel) (by decide) (by decide) (Follow.eof _ (by decide))
+    (init_before exFieldKeysText (by decide +kernel))
+  exact ⟨s', h⟩
+
+example : (match (runHandler 200 .parseShowSeriesStatement).run (PState.init exShowText [] []) with
+    | .ok _ => true
+    | .error _ => false) = true := by decide +kernel
+
 /-! ## passwords -/
 
 /-- The printed form of `CREATE USER` / `SET PASSWORD` does not depend on the password. -/
